@@ -38,7 +38,7 @@ BOUNDS = {
     "quick": "kdq: reference and test batch of <=3 symbolic rows (1-D and 2-D), every permutation of the test batch, every second permutation of the reference; HDM: reference 4 rows, "
              "test 3 rows of symbolic cells, 1-2 features, every permutation of the test batch and 5 of the reference, two "
              "consecutive batches; NNSP: samples of <=3+2 rows, every permutation; decision level: 3 batches, detect_batch=3",
-    "thorough": "kdq <=4 rows; NNSP <=3+3 rows",
+    "thorough": "kdq reference <=4 rows with test batches <=3 rows (test permutations), reference permutations <=3 rows; NNSP 3+2 rows in 2-D",
 }
 OUTSIDE = ("order independence of numpy/scipy/sklearn primitives themselves (np.histogram counting model, np.unique model, kNN "
            "stub); HDDDM/CDBD with detect_batch=1 (the reference is split by position; excluded by the property); larger batches")
@@ -202,7 +202,9 @@ def jobs(tier):
                 if d == 2 and n + m > (5 if q else 6):
                     continue
                 for which in ("test", "reference"):
-                    if which == "reference" and (m > 2 or (q and d == 2 and n > 2)):
+                    if which == "reference" and (m > 2 or n > 3 or (q and d == 2 and n > 2)):
+                        continue  # a new tree per permutation: n=4 exceeds the job budget
+                    if which == "test" and m > 3:
                         continue
                     out.append(Job(f"kdq-d{d}-n{n}-m{m}-{which}", "checks.c18:body_kdq", {"n": n, "m": m, "d": d, "which": which},
                                    expect=("checked",), opts={"validate": 1}))
@@ -214,7 +216,7 @@ def jobs(tier):
                 out.append(Job(f"hdm-f{features}-{which}-second{int(second)}", "checks.c18:body_hdm",
                                {"features": features, "which": which, "second": second}, expect=("checked",),
                                opts={"validate": 1, "query_timeout_ms": 60000}))
-    for n1, n2, d in ((2, 2, 1), (3, 2, 1), (2, 2, 2)) + (() if q else ((3, 3, 1), (3, 2, 2))):
+    for n1, n2, d in ((2, 2, 1), (3, 2, 1), (2, 2, 2)) + (() if q else ((3, 2, 2),)):
         out.append(Job(f"nnsp-{n1}x{n2}-d{d}", "checks.c18:body_nnsp", {"n1": n1, "n2": n2, "d": d}, expect=("checked",),
                        opts={"validate": 1}))
     for det in ("HDM", "KdqTreeBatch", "NNDVI"):
